@@ -1222,7 +1222,7 @@ def bounded(seq, bounds, index=None, clip=True, nearest=True):
     # find indicies of the elements that are out of bounds
     at = where(sum([(lo <= seq)&(seq <= hi) for (lo,hi) in bounds.T], axis=0).astype(bool) == False)[-1]
     # find the intersection of out-of-bound and selected indicies
-    at = at if index is None else intersect1d(at, index)
+    at = at if index is None else intersect1d(at, [i%len(seq) for i in index if -len(seq) <= i < len(seq)])
     if not len(at): return seq
     if clip:
         if nearest: # clip at closest bounds
